@@ -38,6 +38,11 @@ INVARIANT CleanCloseComplete
 INVARIANT EmitCase
 POSTCONDITION TraceAccepted
 """
+WARN_CFG = """SPECIFICATION Spec
+INVARIANT FirstOpenVisible
+INVARIANT CleanSilent
+INVARIANT EmitCase
+"""
 CFG_CRASH = """
 INIT Init
 NEXT Next
@@ -156,30 +161,36 @@ def session_job(job):
     """A reader SESSION: one interpreter with Python's default warning filters opens several files one after the other (a
     script walking a directory of results).  Every interrupted file it opens must fail or produce a warning the user can
     see - also the second, third, ... one."""
-    tmpdir, plan = job          # plan: list of (kind, import type); kind 'flagged' / 'clean'
+    tmpdir, plan = job[0], job[1]    # plan: list of (kind, import type, file id); kind 'flagged' / 'clean'
+    want_shown = job[2] if len(job) > 2 else None
     env = dict(os.environ, PYTHONPATH=core.REPO, OMP_NUM_THREADS="1")
     env.pop("PYTHONWARNINGS", None)
-    paths = []
-    for i, (kind, _typ) in enumerate(plan):
-        path = os.path.join(tmpdir, "session_%d_%s_%d.h5" % (os.getpid(), kind, i))
+    files = {}
+    tag = "%d_%d" % (os.getpid(), abs(hash(repr(plan))) % 10 ** 8)
+    for kind, _typ, fid in plan:
+        if fid in files:
+            continue
+        path = os.path.join(tmpdir, "session_%s_%s_%d.h5" % (tag, kind, fid))
         p = subprocess.run([core.PY, "-c", SESSION_WRITER, path, kind], env=env, stdout=subprocess.PIPE, stderr=subprocess.STDOUT,
                            text=True, timeout=300)
         if p.returncode != 0 or not os.path.exists(path):
             return [{"what": "harness", "detail": "session writer: rc=%s %s" % (p.returncode, p.stdout[-200:])}]
-        paths.append(path)
-    p = subprocess.run([core.PY, "-c", SESSION_READER] + ["%s:%s" % (typ, path) for (_k, typ), path in zip(plan, paths)],
+        files[fid] = path
+    p = subprocess.run([core.PY, "-c", SESSION_READER] + ["%s:%s" % (typ, files[fid]) for _k, typ, fid in plan],
                        env=env, stdout=subprocess.PIPE, stderr=subprocess.PIPE, text=True, timeout=300)
     opened = [ln.split()[1] for ln in p.stdout.splitlines() if ln.startswith("OPENED")]
     shown = p.stderr.count("may be corrupt")
-    flagged_opened = [path for (kind, _t), path in zip(plan, paths) if kind == "flagged" and path in opened]
     out = []
-    if shown < len(flagged_opened):
+    flagged_files = {files[fid] for kind, _t, fid in plan if kind == "flagged" and files[fid] in opened}
+    # the specification's count (one visible warning per interrupted file, at its first open) is a lower bound: a library
+    # that says more is not wrong
+    need = len(flagged_files) if want_shown is None else max(want_shown, len(flagged_files))
+    if shown < need:
         out.append({"what": "interrupted-file-opens-without-visible-warning", "plan": [list(x) for x in plan],
-                    "interrupted_files_opened": len(flagged_opened), "warnings_shown": shown})
-    clean_opened = [path for (kind, _t), path in zip(plan, paths) if kind == "clean" and path in opened]
-    if len(clean_opened) != sum(1 for k, _ in plan if k == "clean"):
-        out.append({"what": "clean-file-not-opened", "stderr": p.stderr[-300:]})
-    for path in paths:
+                    "interrupted_files_opened": len(flagged_files), "warnings_required": need, "warnings_shown": shown})
+    if len(opened) != len(plan):
+        out.append({"what": "file-not-opened", "opened": len(opened), "of": len(plan), "stderr": p.stderr[-300:]})
+    for path in files.values():
         if os.path.exists(path):
             os.remove(path)
     return out
@@ -417,11 +428,21 @@ def run(ctx):
                 ctx.violation("C17:modes:%s%s" % (x["what"], ":race" if late else ""), "%s late=%s: %s" % (row, late, x),
                               {"mode_row": row, "late": late})
         # reader sessions: several files opened one after the other in one interpreter with default warning filters
-        plans = [[("flagged", "simple"), ("flagged", "simple")], [("flagged", "file"), ("clean", "file"), ("flagged", "simple")],
-                 [("clean", "simple"), ("flagged", "file"), ("flagged", "file"), ("flagged", "simple")]]
-        sjobs = [(tmpdir, pl) for pl in plans]
-        for (_, pl), mm in zip(sjobs, core.pmap(session_job, sjobs)):
-            ctx.case({"reader_session": [list(x) for x in pl]})
+        # (specs/WarnSession.tla: every history of opens over two interrupted files and a clean one, with the number of
+        # warnings that must reach the error stream; the deviation SameText - one text for all files - must violate)
+        wconsts = {"Files": "{1, 2, 3}", "Flagged": "{1, 2}", "MaxOpens": "3" if quick else "4"}
+        wdev = ctx.tlc("WarnSession", WARN_CFG, label="reader sessions, deviation SameText (must violate)", workers=2, must_hold=False,
+                       constants=dict(wconsts, Dev='"SameText"', Emit="FALSE"))
+        if wdev.ok:
+            raise core.MachineryError("WarnSession.tla: deviation SameText satisfies FirstOpenVisible")
+        wr = ctx.tlc("WarnSession", WARN_CFG, label="reader sessions", workers=2, constants=dict(wconsts, Dev='"none"', Emit="TRUE"))
+        plans = []
+        for ci, c in enumerate(wr.cases):
+            h = [int(x) for x in c["hist"]]
+            plans.append(([("flagged" if f in (1, 2) else "clean", ("file", "simple")[(i + ci) % 2], f) for i, f in enumerate(h)], int(c["shown"])))
+        sjobs = [(tmpdir, pl, shown) for pl, shown in plans]
+        for (_, pl, _shown), mm in zip(sjobs, core.pmap(session_job, sjobs)):
+            ctx.case({"reader_session": [list(x) for x in pl]}, nontrivial=sum(1 for x in pl if x[0] == "flagged") >= 2)
             for x in mm:
                 if x["what"] == "harness":
                     raise core.MachineryError(x["detail"])
